@@ -1,5 +1,13 @@
 /* C15 harness: drives aws_ring_buffer through an op file; releases can be injected between the
- * acquirer's tail load and head load through the schedule-point callback (verif_atomics.h). */
+ * acquirer's tail load and head load through the schedule-point callback (verif_atomics.h).
+ *
+ *   init <n> | acq <k> <p> <size> [live<j>] | upto <k> <p> <min> <size> [live<j>] | rel
+ *
+ * *dest of every acquire is pre-filled: with a sentinel, or (live<j>, only without injected releases) it IS the caller's
+ * handle of the j-th outstanding buffer (0 = oldest) - the idiom of tests/ring_buffer_test.c for requests expected to
+ * fail.  A refused request must leave *dest untouched (P dest_untouched); if it does not, the handle stays clobbered and
+ * its later in-order release publishes whatever it now describes.  A granted request with a live handle as dest: the
+ * caller is taken to have kept a copy (the handle is restored), the new buffer is queued as usual. */
 #include "h_common.h"
 #include <aws/common/byte_buf.h>
 #include <aws/common/ring_buffer.h>
@@ -9,7 +17,9 @@
 #define MAXOUT 4096
 static struct aws_ring_buffer s_ring;
 static bool s_have;
-static struct aws_byte_buf s_out[MAXOUT];
+static struct aws_byte_buf s_out[MAXOUT];  /* the caller's handles (what release is called with) */
+static struct aws_byte_buf s_true[MAXOUT]; /* shadow copies: the true extent of each buffer, for the overlap monitor */
+static uint8_t s_sentinel_byte;
 static size_t s_head_idx, s_tail_idx; /* FIFO of outstanding buffers: [s_tail_idx, s_head_idx) */
 static size_t s_inject;               /* releases to perform at schedule point s_inject_at of the current call */
 static int s_inject_at;               /* 0 = before the first atomic access, 1 = before the second, ... */
@@ -81,8 +91,37 @@ static void s_print_valid(void) {
     printf("P valid=%d\n", (int)aws_ring_buffer_is_valid(&s_ring));
 }
 
-static void s_after_acquire(int rc, struct aws_byte_buf *dest) {
+/* choose *dest for the call: the live handle named by the optional token, else `local` filled with a sentinel */
+static struct aws_byte_buf *s_pick_dest(const char *tok, struct aws_byte_buf *local, struct aws_byte_buf *saved, bool *live) {
+    struct aws_byte_buf *d = local;
+    *live = false;
+    local->len = 0x11;
+    local->buffer = &s_sentinel_byte;
+    local->capacity = 0x33;
+    local->allocator = (struct aws_allocator *)(void *)&s_sentinel_byte;
+    if (tok && !strncmp(tok, "live", 4) && s_inject == 0) {
+        size_t j = (size_t)atol(tok + 4);
+        if (s_tail_idx + j < s_head_idx) {
+            d = &s_out[s_tail_idx + j];
+            *live = true;
+        }
+    }
+    *saved = *d;
+    return d;
+}
+
+static void s_after_acquire(int rc, struct aws_byte_buf *dest, const struct aws_byte_buf *saved, bool live) {
     s_call_end();
+    if (rc != AWS_OP_SUCCESS) {
+        printf("P acq %s\n", hc_last_error_name());
+        /* frame condition: a refused request does not write *dest */
+        printf("P dest_untouched=%d\n", memcmp(dest, saved, sizeof(*dest)) == 0);
+    }
+    struct aws_byte_buf got = *dest;
+    if (rc == AWS_OP_SUCCESS && live) {
+        *dest = *saved; /* the caller kept its copy of the handle */
+    }
+    dest = &got;
     if (rc == AWS_OP_SUCCESS) {
         size_t off = (size_t)(dest->buffer - s_ring.allocation);
         printf("P acq OK len=%zu\n", dest->capacity);
@@ -91,7 +130,7 @@ static void s_after_acquire(int rc, struct aws_byte_buf *dest) {
         bool inside = dest->buffer >= s_ring.allocation && dest->buffer + dest->capacity <= s_ring.allocation_end;
         bool overlap = false;
         for (size_t i = s_tail_idx; i < s_head_idx; ++i) {
-            uint8_t *a = s_out[i].buffer, *ae = a + s_out[i].capacity;
+            uint8_t *a = s_true[i].buffer, *ae = a + s_true[i].capacity;
             if (dest->buffer < ae && a < dest->buffer + dest->capacity) {
                 overlap = true;
             }
@@ -101,9 +140,8 @@ static void s_after_acquire(int rc, struct aws_byte_buf *dest) {
         }
         memset(dest->buffer, 0xA5, dest->capacity); /* ASan: whole buffer writable */
         HC_CHECK(s_head_idx < MAXOUT);
+        s_true[s_head_idx] = *dest;
         s_out[s_head_idx++] = *dest;
-    } else {
-        printf("P acq %s\n", hc_last_error_name());
     }
     printf("P outstanding=%zu\n", s_head_idx - s_tail_idx);
     s_print_valid();
@@ -124,18 +162,22 @@ int main(void) {
             s_print_valid();
         } else if (!s_have) {
             printf("bad-op\n");
-        } else if (!strcmp(t[0], "acq") && n == 4) {
-            struct aws_byte_buf dest;
-            AWS_ZERO_STRUCT(dest);
+        } else if (!strcmp(t[0], "acq") && (n == 4 || (n == 5 && !strncmp(t[4], "live", 4)))) {
+            struct aws_byte_buf local, saved;
+            bool live;
+            s_inject = (size_t)atol(t[1]);
+            struct aws_byte_buf *dest = s_pick_dest(n == 5 ? t[4] : NULL, &local, &saved, &live);
             s_call_begin(t[1], t[2]);
-            int rc = aws_ring_buffer_acquire(&s_ring, hc_parse_size(t[3]), &dest);
-            s_after_acquire(rc, &dest);
-        } else if (!strcmp(t[0], "upto") && n == 5) {
-            struct aws_byte_buf dest;
-            AWS_ZERO_STRUCT(dest);
+            int rc = aws_ring_buffer_acquire(&s_ring, hc_parse_size(t[3]), dest);
+            s_after_acquire(rc, dest, &saved, live);
+        } else if (!strcmp(t[0], "upto") && (n == 5 || (n == 6 && !strncmp(t[5], "live", 4)))) {
+            struct aws_byte_buf local, saved;
+            bool live;
+            s_inject = (size_t)atol(t[1]);
+            struct aws_byte_buf *dest = s_pick_dest(n == 6 ? t[5] : NULL, &local, &saved, &live);
             s_call_begin(t[1], t[2]);
-            int rc = aws_ring_buffer_acquire_up_to(&s_ring, hc_parse_size(t[3]), hc_parse_size(t[4]), &dest);
-            s_after_acquire(rc, &dest);
+            int rc = aws_ring_buffer_acquire_up_to(&s_ring, hc_parse_size(t[3]), hc_parse_size(t[4]), dest);
+            s_after_acquire(rc, dest, &saved, live);
         } else if (!strcmp(t[0], "rel") && n == 1) {
             s_release_oldest();
             printf("P outstanding=%zu\n", s_head_idx - s_tail_idx);
